@@ -203,6 +203,9 @@ class SimpleTypeChecker(walkers.DagWalker):
                                  % str(formula))
         elif args[0].is_bv_type():
             return self.walk_bv_to_bool(formula, args)
+        elif args[0].is_function_type():
+            # Function symbols are not terms
+            return None
         return self.walk_type_to_type(formula, args, args[0], BOOL)
 
     @walkers.handles(op.LE, op.LT)
